@@ -339,6 +339,7 @@ DRIVERS = {
     "cdriver": dict(name="cdriver", extract_v="theories/Extract/ExtractContours.v", modname="cmodel"),
     "gdriver": dict(name="gdriver", extract_v="theories/Extract/ExtractGrid.v", modname="gmodel"),
     "sgdriver": dict(name="sgdriver", extract_v="theories/Extract/ExtractSimplexGrid.v", modname="sgmodel"),
+    "qtdriver": dict(name="qtdriver", extract_v="theories/Extract/ExtractQuadTree.v", modname="qtmodel"),
 }
 
 
